@@ -4862,6 +4862,51 @@ impl<'a, 'graph> Builder<'a, 'graph> {
             self.graph.packages.ensure_package(pkg.nv);
           }
 
+          // A response that names another final specifier (an implicit
+          // redirect) was verified by the loader against the checksum of the
+          // requested specifier only. If the lockfile knows a checksum for
+          // the final specifier, the content has to match that one too.
+          let result = match result {
+            Ok(PendingInfoResponse::Module {
+              specifier,
+              module_source_and_info,
+              pending_load,
+              is_root,
+            }) => {
+              let maybe_err = if specifier != requested_specifier
+                && maybe_version_info.is_none()
+              {
+                self
+                  .locker
+                  .as_ref()
+                  .and_then(|l| l.get_remote_checksum(&specifier))
+                  .and_then(|checksum| {
+                    checksum
+                      .check_source(&module_source_and_info.source_bytes())
+                      .err()
+                  })
+              } else {
+                None
+              };
+              match maybe_err {
+                Some(err) => Err(
+                  ModuleErrorKind::Load {
+                    specifier,
+                    maybe_referrer: maybe_range.clone(),
+                    err: ModuleLoadError::HttpsChecksumIntegrity(err),
+                  }
+                  .into_box(),
+                ),
+                None => Ok(PendingInfoResponse::Module {
+                  specifier,
+                  module_source_and_info,
+                  pending_load,
+                  is_root,
+                }),
+              }
+            }
+            other => other,
+          };
           match result {
             Ok(response) => {
               self.check_specifier(&requested_specifier, response.specifier());
